@@ -58,6 +58,49 @@ def replay(ctx, binary, cases, prefixes):
     return stats
 
 
+def ns_monitor(ctx):
+    """namespace.labelSelector bindings: the unlock racing with the namespace informer's add callback (spec/NsMonitor)."""
+    asis = bool(os.environ.get("VERIF_KI_ASIS"))
+    r = vlib.tlc(ctx, "NsMonitor", "NsMonitor", "MC.cfg", timeout=300, expect_violation=False, workers=4)
+    vlib.tlc(ctx, "NsMonitor", "NsMonitor", "MC_asis_f4.cfg", timeout=300, expect_violation="AllEnabled", workers=4)
+    vlib.tlc(ctx, "NsMonitor", "NsMonitor", "MC_f5.cfg", timeout=300, expect_violation="AllDelivered", workers=4)
+    ctx.log("TLC NsMonitor: %d distinct states; pinned-commit model never enables late-stored informers (F4); preloaded objects of a new namespace are never delivered (F5)" % r["distinct"])
+    d = os.path.dirname(ctx.path("nsbeh", "x"))
+    vlib.tlc(ctx, "NsMonitor", "NsMonitor", "Sim.cfg", mode="sim", sim_num=ctx.pick(150, 1500), sim_depth=30, timeout=300, want_prints=False,
+             consts={"FixF4": "FALSE" if asis else "TRUE"}, simfile=os.path.join(d, "b"))
+    cases = []
+    for f in sorted(glob.glob(os.path.join(d, "b_*"))):
+        sts = tlaparse.parse_behaviour_file(f)
+        os.unlink(f)
+        if len(sts) > 3:
+            cases.append({"steps": sts})
+    binary = vlib.go_build(ctx, "nsmon")
+    inp, outp = ctx.path("ns_in.jsonl"), ctx.path("ns_out.jsonl")
+    vlib.write_jsonl(inp, cases)
+    rr = vlib.run_bin(ctx, binary, ["-in", inp, "-out", outp], timeout=1500)
+    if rr["rc"] != 0:
+        raise Infra("nsmon failed: " + rr["stderr"][-1500:])
+    res = vlib.read_jsonl(outp)
+    if len(res) != len(cases):
+        raise Infra("nsmon: %d results for %d cases" % (len(res), len(cases)))
+    stats = {"cases": len(cases), "quiet": 0, "diverged": 0}
+    for c, o in zip(cases, res):
+        stats["quiet"] += 1 if o.get("quiet") else 0
+        if o["ok"]:
+            continue
+        sigs = o.get("sigs") or [o["sig"]]
+        hit = False
+        for sig in sigs:
+            if sig.startswith("C01/"):
+                hit = True
+                ctx.fail(sig, o["detail"], {"spec": "NsMonitor", "actions": [s["act"] for s in c["steps"][1:]]})
+        if not hit:
+            stats["diverged"] += 1
+            ctx.notes.append("DIVERGENCE %s (NsMonitor step %s): %s" % (o["sig"], o.get("bad_step"), o["detail"][:300]))
+    ctx.log("NsMonitor: replayed %d schedules on the real monitor: %s" % (len(cases), stats))
+    return len(cases), stats
+
+
 def check_c01(ctx):
     r = vlib.tlc(ctx, SPEC, "KubeInformer", "MC_quick.cfg", timeout=600, expect_violation=False)
     ctx.log("TLC MC_quick: %d generated / %d distinct, %.0fs" % (r["generated"], r["distinct"], r["wall_s"]))
@@ -84,10 +127,31 @@ def check_c01(ctx):
             cases.append({"eventTypes": event_types(b), "steps": b})
     stats = replay(ctx, binary, cases, ("C01/",))
     ctx.log("replayed %d schedules on the real informer: %s" % (len(cases), stats))
-    ctx.cov["traces_validated_against_impl"] = len(cases)
-    ctx.cov["evaluations"] = len(cases)
+    ns_cases, ns_stats = ns_monitor(ctx)
+    # (T) manager level: free-running runs through client-go informers, the monitor callback and the capacity-1 channel
+    runs = ctx.pick(150, 1500)
+    tr = ctx.path("delivery.ndjson")
+    rr = vlib.run_bin(ctx, binary, ["stress", "-out", tr, "-n", str(runs), "-seed", str(ctx.seed)], timeout=900)
+    if rr["rc"] != 0:
+        raise Infra("ki stress failed: " + rr["stderr"][-1500:])
+    events = vlib.read_jsonl(tr)
+    t = vlib.tlc(ctx, SPEC, "KubeDelivery", "Delivery.cfg", mode="mc", workers=1, timeout=900, files={"delivery.ndjson": tr})
+    if t["violated"]:
+        et = tlaparse.parse_error_trace(t["out"])
+        last = et[-1][1] if et else {}
+        l = last.get("l", 0)
+        why = last.get("why", "?")
+        win = events[max(0, l - 12):l]
+        ctx.fail("C01/delivery/" + str(why), "manager-level run: the consumer saw %s; record %d of the trace: %s" % (why, l - 1, json.dumps(events[l - 2] if 2 <= l <= len(events) + 1 else {})),
+                 {"trace_window": win})
+    ctx.cov["delivery_runs"] = runs
+    ctx.cov["delivery_events"] = len(events)
+    ctx.log("manager level: %d free-running runs (%d trace records) validated by TLC against KubeDelivery: %s" % (runs, len(events), t["violated"] or "accepted"))
+    ctx.cov["traces_validated_against_impl"] = len(cases) + ns_cases + runs
+    ctx.cov["evaluations"] = len(cases) + ns_cases
     ctx.cov["distinct_nontrivial"] = len({json.dumps([s["act"] for s in c["steps"]]) for c in cases if len(c["steps"]) > 8})
     ctx.cov["replay"] = stats
+    ctx.cov["ns_monitor_replay"] = ns_stats
     ctx.sample({"schedule": [s["act"] for s in cases[0]["steps"][1:]]})
     ctx.sample({"schedule": [s["act"] for s in cases[-1]["steps"][1:25]]})
     vlib.finish(ctx, rule="schedules = TLC simulation behaviours of spec/KubeInformer (4 configurations) + TLC's counterexample of the known second-reader loss; "
